@@ -17,6 +17,7 @@ import (
 	"runtime"
 	"sort"
 	"sync"
+	"sync/atomic"
 
 	"github.com/33cn/chain33/common/address"
 	"github.com/33cn/chain33/common/crypto"
@@ -278,6 +279,8 @@ func ethSenders(pool []int) int {
 	return x + y
 }
 
+var nsample int32
+
 func main() {
 	r := vx.Start("C23", "model_checking")
 	r.QuietStderr()
@@ -417,7 +420,9 @@ func main() {
 										}
 										r.Seen("outcomes", fmt.Sprintf("plain%d eth%d full=%v", np, ne, int64(len(got)) == k.Count))
 										if len(got) > 0 {
-											r.Seen("replies", names)
+											if !r.Seen("replies", names) && ne > 0 && np > 0 && len(pool) >= 3 && atomic.AddInt32(&nsample, 1) <= 8 {
+												r.Sample(map[string]interface{}{"pool": k.Names, "aged": k.Aged, "header": fmt.Sprintf("(h%d,T%+d)", k.Header[0], k.Header[1]-tExp), "current_nonce_X_Y": k.Nonce, "count": k.Count, "exclude_mask": k.Exclude, "reply": names})
+											}
 										}
 									}
 								}
